@@ -572,7 +572,7 @@ Qed.
 (* the functions of internal/json the translator could NOT express stay tied to the code by the
    byte-exact correspondence run only; the list is part of the generated file and fixed here, so a
    function silently leaving the translated set breaks this lemma *)
-Lemma json_skipped_functions : length JsonSrc.skipped_functions = 14%nat /\ length JsonSrc.translated_functions = 41%nat.
+Lemma json_skipped_functions : length JsonSrc.skipped_functions = 9%nat /\ length JsonSrc.translated_functions = 46%nat.
 Proof. split; reflexivity. Qed.
 
 (* what the property needs of the two functions every key and string goes through, stated of the source *)
